@@ -1,3 +1,4 @@
+import re
 from ast import Attribute, Subscript, Load, NodeVisitor
 
 from .compat import PY2
@@ -403,6 +404,35 @@ class extract_visitor(NodeVisitor):
     def visit_Nonlocal(self, node):
         # type: (ast.Nonlocal) -> None
         self.flow.scope.nonlocals.update(node.names)
+
+    def bind_capture(self, name, loc):
+        # type: (str, loc_t) -> None
+        # a capture of a match statement: bound from the identifier on (for
+        # the guard, the body and, like any name, after the statement)
+        self.flow.add_name(AssignedName(name, (loc[0], loc[1] + len(name)), loc, None))  # type: ignore[arg-type]
+
+    def visit_MatchAs(self, node):
+        # type: (t.Any) -> None
+        self.generic_visit(node)
+        if node.name:
+            # 'case x' / 'case <pattern> as x': the identifier ends the node
+            self.bind_capture(node.name, (node.end_lineno, node.end_col_offset - len(node.name)))
+
+    visit_MatchStar = visit_MatchAs
+
+    def visit_MatchMapping(self, node):
+        # type: (t.Any) -> None
+        self.generic_visit(node)
+        if node.rest:
+            # '{..., **rest}': the last thing before the closing brace
+            sl, pos = ((node.patterns[-1].end_lineno, node.patterns[-1].end_col_offset)
+                       if node.patterns else np(node))
+            source = '\n'.join(self.top.source.lines[sl-1:node.end_lineno])
+            m = re.compile(r'\*\*(?:\s|\\\n)*(%s)\b' % re.escape(node.rest)).search(source, pos)
+            if m:
+                pos = m.start(1)
+                self.bind_capture(node.rest, (sl + source.count('\n', 0, pos),
+                                              pos - source.rfind('\n', 0, pos) - 1))
 
     def visit_Name(self, node):
         # type: (ast.Name) -> None
